@@ -3,13 +3,14 @@
 # False-alarm test: applies each behaviour-preserving change in /verif/benign/*.diff to /repo, runs every
 # registered quick check, reverts. Every check must hold on every one of them. Results: benign/results.txt
 cd "$(dirname "$0")/.." || exit 2
-[ -z "$(git -C /repo status --porcelain)" ] || { echo "/repo has uncommitted changes"; exit 2; }
+REPO="${RSDD_REPO:-/repo}"
+[ -z "$(git -C "$REPO" status --porcelain)" ] || { echo "$REPO has uncommitted changes"; exit 2; }
 FILES="${@:-benign/*.diff}"
 for f in $FILES; do
     name=$(basename "$f" .diff)
-    if ! git -C /repo apply "$PWD/$f"; then echo "$name: PATCH DOES NOT APPLY" | tee -a benign/results.txt; continue; fi
+    if ! git -C "$REPO" apply "$PWD/$f"; then echo "$name: PATCH DOES NOT APPLY" | tee -a benign/results.txt; continue; fi
     out=$(tools/run_all.sh quick 2>&1); rc=$?
-    git -C /repo checkout -- .
+    git -C "$REPO" checkout -- .
     held=$(echo "$out" | grep -c "exit=0\] check")
     echo "$name: $held checks held, rc=$rc" | tee -a benign/results.txt
     echo "$out" | grep -E "VIOLATION|HARNESS|exit=[12]\]" | sed "s/^/    /" | tee -a benign/results.txt
